@@ -79,7 +79,7 @@ def validate_and_report(ctx, module, cfg, tpath, label, classify, behaviours=Non
         sig = classify(ev, lines[:k], f["last_state"]) if classify else {}
         what = "%s trace rejected by %s at event %d of run %d: %s" % (
             label, module, k + 1, f["run_index"], json.dumps(ev)[:600])
-        replay = {"module": module, "cfg": cfg, "events": lines[:k + 1],
+        replay = {"module": module, "cfg": cfg, "env": env, "events": lines[:k + 1],
                   "first_unmatched_index": k, "unmatched_event": ev,
                   "last_matched_state": f["last_state"]}
         if behaviours is not None and lines and isinstance(lines[0], dict) and "run" in lines[0]:
